@@ -194,8 +194,8 @@ IT = 'pymoto.solvers.iterative'
 
 
 def _poly_zero(e):
-    from .C01 import poly_zero
-    return poly_zero(e)
+    from .C01 import poly_zero_full
+    return poly_zero_full(e)
 
 for _maxit, _x0 in ((1, False), (2, False), (2, True), (3, True)):
     @harness(P, f'CG.solve.partial_correctness[maxit={_maxit},x0={_x0}]', targets=[f'{IT}:CG.solve', f'{IT}:CG.update', f'{IT}:CG.__init__'], timeout=20000)
